@@ -82,6 +82,10 @@ def run(chk):
     from ..report import AliasedCheck
     from . import c04
     c04.run(AliasedCheck(chk, {"C04.R2": "C09.R7", "C04.R3": "C09.R7"}))
+    if chk.pid == "C09":
+        # "one scale (and zero-point) per output index or group": the optimizers reduce over every other dimension (C03.R1)
+        from . import c03
+        c03.run(AliasedCheck(chk, {"C03.R1": "C09.R7"}))
     from .. import handrules
     n7 = 0
     for r in handrules.analyse(repo, chk.tier):
